@@ -170,4 +170,67 @@ block that does not convert stops the sender; one that converts goes to the pool
 def blockResponseDecide (blockConverts : Bool) : Decision :=
   if blockConverts then .accept else .stop
 
+/-! ### the accept path (p2p/transport.go acceptPeers/filterConn/upgrade, p2p/switch.go acceptRoutine)
+
+An inbound connection goes through `filterConn`, the secret-connection handshake, the NodeInfo
+exchange (`handshake`: one length-delimited protobuf, at most `MaxNodeInfoSize` bytes, under a
+deadline), `Validate`, the id checks and `CompatibleWith`. What the transport hands to
+`Switch.acceptRoutine` for each way this can fail decides whether the node survives. -/
+
+/-- every way the accept path can fail, by stage -/
+inductive AcceptFailure
+  | duplicateConn            -- filterConn: the connection is already known
+  | resolveIPs               -- filterConn: the resolver fails on the remote address (local DNS, not peer bytes)
+  | connFilterRejects        -- a ConnFilterFunc returns an error
+  | connFilterTimesOut       -- a ConnFilterFunc does not answer within filterTimeout
+  | secretConn               -- upgradeSecretConn fails (garbage, early close, timeout, low-order point, bad signature)
+  | nodeInfoExchange         -- handshake() fails: garbled / oversized / truncated NodeInfo, early close, timeout
+  | nodeInfoInvalid          -- NodeInfo.Validate() fails
+  | idMismatch               -- the authenticated key is not the NodeInfo's id
+  | isSelf                   -- the peer is this node
+  | incompatible             -- CompatibleWith fails (network, block version, no common channel)
+  | upgradePanics            -- anything in the upgrade goroutine panics (it has a recover)
+  | transportClosed          -- Close() was called (local)
+  | listenerFails            -- listener.Accept fails while the transport is open (local)
+deriving Repr, DecidableEq
+
+/-- what `Transport.Accept` returns -/
+inductive AcceptErr
+  | rejected | filterTimeout | transportClosed | other
+deriving Repr, DecidableEq
+
+/-- the error the transport produces for a failure (the code that exists) -/
+def acceptErrOf : AcceptFailure → AcceptErr
+  | .duplicateConn => .rejected
+  | .resolveIPs => .other
+  | .connFilterRejects => .rejected
+  | .connFilterTimesOut => .filterTimeout
+  | .secretConn => .rejected
+  | .nodeInfoExchange => .rejected
+  | .nodeInfoInvalid => .rejected
+  | .idMismatch => .rejected
+  | .isSelf => .rejected
+  | .incompatible => .rejected
+  | .upgradePanics => .rejected
+  | .transportClosed => .transportClosed
+  | .listenerFails => .other
+
+inductive LoopAction
+  | continue | exit | panic
+deriving Repr, DecidableEq
+
+/-- `Switch.acceptRoutine`'s type switch on the error -/
+def acceptRoutineOn : AcceptErr → LoopAction
+  | .rejected => .continue
+  | .filterTimeout => .continue
+  | .transportClosed => .exit
+  | .other => .panic
+
+/-- failures a remote peer can cause with the bytes it sends (or does not send) -/
+def AcceptFailure.peerCaused : AcceptFailure → Bool
+  | .resolveIPs => false
+  | .transportClosed => false
+  | .listenerFails => false
+  | _ => true
+
 end Tmv.ReactorMsgs
